@@ -71,7 +71,8 @@ class RequestCookies(MutableMapping):
         # a name can occur more than once and the last pair is the one that is
         # read back: that is the pair to replace, and removing a name removes
         # all of its pairs (going backwards keeps the earlier spans valid)
-        for match in reversed(matches):
+        for i in reversed(range(len(matches))):
+            match = matches[i]
             start, end = match.span()
             match_name = match.group(1)
 
@@ -79,7 +80,15 @@ class RequestCookies(MutableMapping):
                 found = True
 
                 if replacement is None:  # remove value
-                    header = header[:start].rstrip(b" ;") + header[end:]
+                    # drop the separator in front of the pair as well, but
+                    # never cut into the pair before it, whose value can end
+                    # with an escaped ";" or space
+                    prev_end = matches[i - 1].end() if i else 0
+                    header = (
+                        header[:prev_end]
+                        + header[prev_end:start].rstrip(b" ;")
+                        + header[end:]
+                    )
                 else:  # replace value
                     header = header[:start] + replacement + header[end:]
 
